@@ -33,7 +33,12 @@
                The deadline error of rd 1 is a *net.OpError (Timeout() = true) around
                os.ErrDeadlineExceeded; 4 is the bare os.ErrDeadlineExceeded; 5 is
                fmt.Errorf("...: %w", os.ErrDeadlineExceeded) (no Timeout method); 6 is io.EOF wrapped
-               with %w.  The model reads 4, 5 as 1 and 6 as 2.
+               with %w; 7 is a hard I/O failure whose error says Timeout() = true but does not wrap
+               os.ErrDeadlineExceeded (a net.OpError around the syscall error ETIMEDOUT).  The model
+               reads 4, 5 as 1, 6 as 2 and 7 as 3.
+               write_err: 0 Write takes everything, 1 Write fails, 2+k Write returns (k, nil), a short
+               count without error.  Client.do / SerialClient.do call Write once and ignore the
+               count (`if _, err := ...Write(data); err != nil`), so the model reads 2+k as 0.
      want      []  |  [0; projected response]  |  [1; unit; fc; code]     the reply the scripted device
                is sending (used only by the verdicts, never by the model)
      result    ok [tid; projected response] | err [value-was-nil; is-ClientError; class...] | panic | [99]
@@ -67,6 +72,7 @@ Definition dec_rd (k : Z) (b : list N) : option rd :=
   | 0%Z => Some (RData b) | 1%Z => Some (RTimeout b) | 2%Z => Some (REof b) | 3%Z => Some (RIoErr b)
   (* other dynamic shapes of the same errors; the client must treat them alike (errors.Is) *)
   | 4%Z | 5%Z => Some (RTimeout b) | 6%Z => Some (REof b)
+  | 7%Z => Some (RIoErr b)
   | _ => None
   end.
 Definition dec_step (v : val) : option step :=
@@ -87,7 +93,7 @@ Definition dec_script (v : val) : option script :=
   match v with
   | VL [VI swd; VI wr; VI fl; VL steps] =>
       match dec_steps steps with
-      | Some ss => Some {| sc_swd_err := zbool swd; sc_write_err := zbool wr; sc_flush_err := zbool fl; sc_steps := ss |}
+      | Some ss => Some {| sc_swd_err := zbool swd; sc_write_err := Z.eqb wr 1; sc_flush_err := zbool fl; sc_steps := ss |}
       | None => None
       end
   | _ => None
@@ -585,6 +591,8 @@ Definition hook_trace_exact (c : ccase) (o : val) (t0 t1 : list val) : bool :=
   val_eqb (VL t1)
     (VL (insert_hooks t0 ++ (if parser_reached c o then [VL [VI 2%Z; VB (consumed t0)]] else []))) &&
   (length (filter (fun e => val_eqb e (VL [VI 7%Z])) t0) <=? 1)%nat &&   (* req.Bytes() called once *)
+  (* the request is handed to the transport (and shown to BeforeWrite) once, whole *)
+  (length (filter (fun e => match e with VL [VI 4%Z; _] => true | _ => false end) t0) <=? 1)%nat &&
   match cc_req c, written t0 with
   | Some (q, sr), Some b =>
       (* the bytes written (and shown to BeforeWrite) are the specified ADU of the request *)
